@@ -7,6 +7,7 @@ import (
 	stdasn1 "encoding/asn1"
 	"fmt"
 	"strings"
+	"sync"
 	"time"
 
 	"github.com/google/certificate-transparency-go/trillian/ctfe/cache"
@@ -54,7 +55,10 @@ func (w *World) drawExternal() {
 	}
 }
 
-func (w *World) initExternal() {
+func (w *World) initExternal() { w.x = w.newExtState() }
+
+// newExtState: a chain store of its own and a cache asked from the shipped factory, as setUpLogInfo asks for one per log.
+func (w *World) newExtState() *extState {
 	x := &extState{w: w, store: &MemStore{S: w.s, Rows: map[string][]byte{}, IgnoresCtx: w.prof.StoreIgnoresCtx}}
 	p := &w.prof
 	var inner cache.IssuanceChainCache
@@ -76,13 +80,35 @@ func (w *World) initExternal() {
 	}
 	if r, ok := inner.(*lru.IssuanceChainCache); ok {
 		x.real = r
+		lruMu.Lock()
+		if lruStopped[r] {
+			// the factory handed out a cache that an earlier instance of this process was given (and whose expiry
+			// goroutine that instance's run has stopped): the code under test shares caches between instances
+			w.s.Probe("cache.shared-with-earlier-instance")
+		}
+		lruMu.Unlock()
 	}
 	x.cache = &SimCache{S: w.s, Inner: inner, Map: mc}
-	w.x = x
+	return x
 }
 
+// Every real LRU is stopped exactly once, by the run that first saw it (its expiry goroutine lives in that run's
+// bubble, and closing its channel from another bubble is fatal). The map keeps the caches alive on purpose: an
+// address must not come back as another cache.
+var (
+	lruMu      sync.Mutex
+	lruStopped = map[*lru.IssuanceChainCache]bool{}
+)
+
 func (x *extState) stop() {
-	if x.real != nil {
+	if x.real == nil {
+		return
+	}
+	lruMu.Lock()
+	seen := lruStopped[x.real]
+	lruStopped[x.real] = true
+	lruMu.Unlock()
+	if !seen {
 		x.real.StopForSim()
 	}
 }
